@@ -6,6 +6,7 @@ import (
 	"fmt"
 	"reflect"
 	"strings"
+	"sync"
 
 	"github.com/google/jsonschema-go/jsonschema"
 
@@ -25,7 +26,7 @@ func (c20) Cases(t fw.Tier) int {
 }
 func (c20) Rule() string {
 	return "each case builds a Schema tree that populates subschema-bearing fields found by the harness's OWN reflection over Schema's exported fields by Go type (*Schema, []*Schema, map[string]*Schema; incl. the draft-07 ones), depth <= 4, with nil and empty containers, " +
-		"then checks: Marshal(clone) == Marshal(orig) bytewise; the sets of *Schema addresses of both trees (own reflection walk) are disjoint; a parent holding both still resolves whenever a parent holding the original alone does; " +
+		"in every fresh worker process the very first CloneSchemas calls are issued by 8 goroutines at once (cold start) and each clone must be disjoint from the original; then per case: Marshal(clone) == Marshal(orig) bytewise; the sets of *Schema addresses of both trees (own reflection walk) are disjoint; a parent holding both still resolves whenever a parent holding the original alone does; " +
 		"and a mutation sweep in both directions: every exported field of every Schema object of one tree is overwritten with a sentinel (scalar fields replaced, every schema slice element and schema map entry reassigned, new entries added) and the other tree's deep snapshot (values + pointer graph) and marshaled bytes must not change. " +
 		"The run is inconclusive if some subschema-bearing field was never populated. Non-trivial: >=3 distinct subschema-bearing fields populated with one at depth >= 2; distinct by the set of (field, depth) pairs."
 }
@@ -99,7 +100,47 @@ func overwriteAll(s *jsonschema.Schema, seen map[*jsonschema.Schema]bool) {
 	}
 }
 
-func (c20) Run(c *fw.Case) {
+var c20Cold sync.Once
+
+// coldStart: the FIRST CloneSchemas calls of this fresh process run concurrently (lazily built tables must not be
+// observable half-built); every clone must be disjoint from the original and from the other clones.
+func (c20) coldStart(c *fw.Case) {
+	r := c.SubRand("cold")
+	s := gen.SchemaStruct(r, &gen.StructOpts{Valid: true, MaxDepth: 4, NoRefs: true, FillAll: true})
+	const k = 8
+	clones := make([]*jsonschema.Schema, k)
+	var wg sync.WaitGroup
+	start := make(chan struct{})
+	for g := 0; g < k; g++ {
+		wg.Add(1)
+		go func(g int) {
+			defer wg.Done()
+			defer func() { recover() }()
+			<-start
+			clones[g] = s.CloneSchemas()
+		}(g)
+	}
+	close(start)
+	wg.Wait()
+	po := snap.Pointers[jsonschema.Schema](s)
+	for g, cl := range clones {
+		if cl == nil {
+			c.Violation("a concurrent first CloneSchemas call panicked", map[string]any{"goroutine": g})
+			return
+		}
+		c.Eval(1)
+		for p := range snap.Pointers[jsonschema.Schema](cl) {
+			if po[p] {
+				c.Violation("a clone made by one of the first, concurrent CloneSchemas calls of the process shares a Schema object with the original", map[string]any{"goroutine": g, "original_objects": len(po)})
+				return
+			}
+		}
+	}
+	c.Count("cold_start_concurrent_clone_rounds", 1)
+}
+
+func (p c20) Run(c *fw.Case) {
+	c20Cold.Do(func() { p.coldStart(c) })
 	r := c.R
 	populated := map[string]bool{}
 	o := &gen.StructOpts{Valid: true, MaxDepth: 4, NoRefs: true, FillAll: true, Populated: populated, PropOrder: c.Idx%3 == 0}
